@@ -81,8 +81,10 @@ func checkWifDec(kind, s string) {
 	case pan != "":
 		il = "panic"
 	case err != nil:
-		cls := "b58"
+		cls := "other:" + err.Error() // an error text this harness does not know is never mapped to a known class
 		switch {
+		case err.Error() == "Decodeb58 failed":
+			cls = "b58"
 		case strings.Contains(err.Error(), "short"):
 			cls = "short"
 		case strings.Contains(err.Error(), "long"):
